@@ -75,6 +75,10 @@ def behave(spec, st, time, inputs):
             for v in vals.values():
                 s += v if isinstance(v, int) else 0
     st = {"val": (s + time + 1) % 7, "time": time, "count": st["count"] + 1}
+    if "self_steps" in spec:
+        # announces the next of a fixed list of self-step times (the same one again when stepped in between by a trigger)
+        later = [x for x in spec["self_steps"] if x > time]
+        return st, (min(later) if later else None)
     return st, (None if spec["type"] == "event-based" else time + spec["step"])
 
 
@@ -84,6 +88,9 @@ def produce(spec, st, attrs):
     for a in attrs:
         if a == "x":
             d[a] = st["val"]
+        elif a == "ev" and "ev_at" in spec:
+            if st["time"] in spec["ev_at"]:
+                d[a] = st["val"]
         elif a == "ev" and st["val"] % 2 == 0 and st["count"] <= spec.get("max_events", 99):
             d[a] = st["val"]
     return d, (st["time"] if spec["type"] == "time-based" else st["time"] + spec.get("out_shift", 0))
@@ -250,10 +257,22 @@ SCENARIOS = {
                [("A", "E", "ev", "in1", {"time_shifted": 2}), ("A", "B", "x", "in1", {"time_shifted": 2, "initial_data": {"x": 6}})], []),
     "initial_event": ({"A": {"type": "time-based", "step": 2}, "E": {"type": "event-based"}, "B": {"type": "time-based", "step": 1}},
                       [("A", "B", "x", "in1", {})], [], {"initial_events": {"A": 3, "E": 2}}),
+    # an event-based source that is never triggered, with a consumer (nothing steps but the consumer)
+    "idle_event_source": ({"E": {"type": "event-based"}, "B": {"type": "time-based", "step": 1}},
+                          [("E", "B", "x", "in1", {})], []),
+    # C announces its next self-step (5) at 0, is triggered in between (2) by T; F's next step is 5 as well (lazy stepping: F waits for C)
+    "trigger_before_self_step": ({"T": {"type": "hybrid", "step": 1, "ev_at": [2]}, "C": {"type": "hybrid", "step": 5, "self_steps": [5]},
+                                  "F": {"type": "time-based", "step": 5}},
+                                 [("T", "C", "ev", "in2", {}), ("F", "C", "x", "in1", {})], []),
+    # H has a self-step queued (6) and is triggered earlier by events stamped with a future time; at the triggered steps it
+    # announces another next step (t + 3, before until): the queued one stays demanded
+    "self_step_and_future_trigger": ({"A": {"type": "hybrid", "step": 1, "out_shift": 1, "ev_at": [0, 3]}, "H": {"type": "hybrid", "step": 3}},
+                                     [("A", "H", "ev", "in2", {})], []),
     "slow_producer_shifted": ({"A": {"type": "time-based", "step": 5}, "B": {"type": "time-based", "step": 1}},
                               [("A", "B", "x", "in1", {"time_shifted": True, "initial_data": {"x": 0}})], []),
 }
 UNTIL = 7
+WATCHDOG_S = 8
 BASE = {"lazy": True, "cache": True, "debug": False}
 
 
@@ -296,9 +315,21 @@ def run_once(name, cfg, order, yields, prune=True):
             world.connect(ents[s], ents[d], (sa, da), **kw)
         for r, t0 in (SCENARIOS[name][3] if len(SCENARIOS[name]) > 3 else {}).get("initial_events", {}).items():
             world.set_initial_event(ents[r].sid, t0)
-        world.run(until=UNTIL, print_progress=False, lazy_stepping=cfg["lazy"])
+        import signal
+
+        def _alarm(signum, frame):
+            raise TimeoutError(f"watchdog: run() did not finish within {WATCHDOG_S} s (deadlock)")
+        old_handler = signal.signal(signal.SIGALRM, _alarm)
+        signal.setitimer(signal.ITIMER_REAL, WATCHDOG_S)
+        try:
+            world.run(until=UNTIL, print_progress=False, lazy_stepping=cfg["lazy"])
+        finally:
+            signal.setitimer(signal.ITIMER_REAL, 0)
+            signal.signal(signal.SIGALRM, old_handler)
         return traces
-    except Exception as e:  # noqa: BLE001
+    except BaseException as e:  # noqa: BLE001  (also CancelledError escaping run())
+        if isinstance(e, (KeyboardInterrupt, SystemExit)):
+            raise
         return ("error", f"{type(e).__name__}: {e}")
     finally:
         scheduler.prune_dataflow_cache = real_prune
